@@ -45,10 +45,16 @@ func init() {
 					jobs = append(jobs, cj("op", op, "cy", 4))
 				}
 			}
+			// constructors: New, NewInt64, NewUint64, NewString carry the context's precision and mode
+			for _, cp := range []int{3, 34} {
+				j := J("H_C19_new", o, "cp", cp)
+				j.Pkg = "context"
+				jobs = append(jobs, j)
+			}
 			return jobs
 		},
 		Bounds: map[string]string{
-			"quick":    "every Context operation (Add Sub Mul Quo FMA Sqrt Neg Abs Set) x outcome classes {normal, ErrNaN (each invalid combination of +-Inf/0), runtime panic (nil operand)} x context state {no error, error already latched}; context precision 3 and 34 with every rounding mode; receiver with precision 0/7 and every mode. Operand magnitudes are fixed (1234.567, 0.089, symbolic signs): the arithmetic is C01's concern, the latch automaton and attribute plumbing are decided for all its states.",
+			"quick":    "constructors New/NewInt64/NewUint64/NewString at context precision {3,34}, every mode (New(0, mode) yields the default precision); every Context operation (Add Sub Mul Quo FMA Sqrt Neg Abs Set) x outcome classes {normal, ErrNaN (each invalid combination of +-Inf/0), runtime panic (nil operand)} x context state {no error, error already latched}; context precision 3 and 34 with every rounding mode; receiver with precision 0/7 and every mode. Operand magnitudes are fixed (1234.567, 0.089, symbolic signs): the arithmetic is C01's concern, the latch automaton and attribute plumbing are decided for all its states.",
 			"thorough": "all receiver precisions {0,7,40} with context precision 34.",
 		},
 		Outside:     []string{"Sqrt of finite values through the context (numeric iteration, see C05): only its special and panic outcomes are run", "panic values that are not errors (strings): the library never raises them from valid calls; the handler's re-panic path is covered by the runtime-error case"},
